@@ -21,9 +21,10 @@ VARIABLES cs,      \* client_state       : "CONNECTING" | "CONNECTED" | "DISCONN
           rpos,    \* number of server events the wrapper has pulled with receive()
           fwd,     \* message types the wrapper passed to the server's send()
           got,     \* indexes (into script) of frames RETURNED to the application
-          ret      \* outcome class of the last call
+          ret,     \* outcome class of the last call
+          failAt   \* fault injection: the server's send() raises on its failAt-th call (0 = never); fixed per behaviour
 
-vars == <<cs, ast, script, rpos, fwd, got, ret>>
+vars == <<cs, ast, script, rpos, fwd, got, ret, failAt>>
 
 States == {"CONNECTING", "CONNECTED", "DISCONNECTED"}
 Rank(s) == CASE s = "CONNECTING" -> 0 [] s = "CONNECTED" -> 1 [] s = "DISCONNECTED" -> 2
@@ -35,6 +36,7 @@ Scripts == {<<"connect">> \o f \o <<"disconnect">> : f \in FrameSeqs}
 Init == /\ cs = "CONNECTING" /\ ast = "CONNECTING"
         /\ script \in Scripts
         /\ rpos = 0 /\ fwd = <<>> /\ got = <<>> /\ ret = "init"
+        /\ failAt \in 0..MaxFwd
 
 (***************************************************************************)
 (* receive(): what the method does, as a function of the state.            *)
@@ -79,13 +81,13 @@ Receive ==
   /\ cs' = r.cs /\ rpos' = r.rpos
   /\ ret' = IF r.err # "" THEN r.err ELSE r.ev
   /\ got' = IF r.err = "" /\ r.ev \in {"text", "bytes"} THEN Append(got, r.rpos) ELSE got
-  /\ UNCHANGED <<ast, script, fwd>>
+  /\ UNCHANGED <<ast, script, failAt, fwd>>
 
 \* receive_text / receive_bytes: assert application_state == CONNECTED; receive();
 \* raise on disconnect; index the message with the kind's key.
 ReceiveTyped(kind) ==
   IF ast # "CONNECTED"
-    THEN /\ ret' = "AssertionError" /\ UNCHANGED <<cs, ast, script, rpos, fwd, got>>
+    THEN /\ ret' = "AssertionError" /\ UNCHANGED <<cs, ast, script, failAt, rpos, fwd, got>>
     ELSE LET r == RecvResult IN
          /\ cs' = r.cs /\ rpos' = r.rpos
          /\ ret' = IF r.err # "" THEN r.err
@@ -93,17 +95,20 @@ ReceiveTyped(kind) ==
                    ELSE IF r.ev = kind THEN kind
                    ELSE "KeyError"          \* connect event, or a frame of the other kind
          /\ got' = IF r.err = "" /\ r.ev = kind THEN Append(got, r.rpos) ELSE got
-         /\ UNCHANGED <<ast, script, fwd>>
+         /\ UNCHANGED <<ast, script, failAt, fwd>>
 
 ReceiveText == ReceiveTyped("text")
 ReceiveBytes == ReceiveTyped("bytes")
 
+\* the state changes BEFORE the message is handed to the server: if the server's send() then raises,
+\* the message counts as forwarded (the server saw it) and the new state stands
+SendFails(r) == r.f /\ Len(fwd) + 1 = failAt
 DoSend(t) ==
   LET r == SendResult(ast, t) IN
   /\ ast' = r.ast
   /\ fwd' = IF r.f THEN Append(fwd, t) ELSE fwd
-  /\ ret' = IF r.err # "" THEN r.err ELSE "ok"
-  /\ UNCHANGED <<cs, script, rpos, got>>
+  /\ ret' = IF r.err # "" THEN r.err ELSE IF SendFails(r) THEN "OSError" ELSE "ok"
+  /\ UNCHANGED <<cs, script, failAt, rpos, got>>
 
 SendRaw(t) == DoSend(t)
 SendText == DoSend("send")
@@ -115,19 +120,19 @@ Accept ==
            ELSE [cs |-> cs, rpos |-> rpos, ev |-> "none", err |-> ""] IN
   IF r.err # ""
     THEN /\ cs' = r.cs /\ rpos' = r.rpos /\ ret' = r.err
-         /\ UNCHANGED <<ast, script, fwd, got>>
+         /\ UNCHANGED <<ast, script, failAt, fwd, got>>
     ELSE LET s == SendResult(ast, "accept") IN
          /\ cs' = r.cs /\ rpos' = r.rpos
          /\ ast' = s.ast
          /\ fwd' = IF s.f THEN Append(fwd, "accept") ELSE fwd
-         /\ ret' = IF s.err # "" THEN s.err ELSE "ok"
-         /\ UNCHANGED <<script, got>>
+         /\ ret' = IF s.err # "" THEN s.err ELSE IF SendFails(s) THEN "OSError" ELSE "ok"
+         /\ UNCHANGED <<script, failAt, got>>
 
 \* close(): if application_state != DISCONNECTED: send(close)
 Close ==
   IF ast # "DISCONNECTED"
     THEN DoSend("close")
-    ELSE /\ ret' = "ok" /\ UNCHANGED <<cs, ast, script, rpos, fwd, got>>
+    ELSE /\ ret' = "ok" /\ UNCHANGED <<cs, ast, script, failAt, rpos, fwd, got>>
 
 \* TLC labels a transition with the innermost operator that is not a mere alias, so the
 \* next-state relation uses ReceiveTyped(kind) and DoSend(type) directly; the typed helpers
@@ -156,7 +161,7 @@ Recog(q, s) ==
        IN Recog(q2, Tail(s))
 
 TypeOK == /\ cs \in States /\ ast \in States /\ rpos \in 0..Len(script)
-          /\ ret \in Errors \cup {"init", "ok", "connect", "disconnect", "text", "bytes"}
+          /\ ret \in Errors \cup {"init", "ok", "connect", "disconnect", "text", "bytes", "OSError"}
 
 \* the forwarded sequence is a legal application sequence
 LegalFwd == Recog("start", fwd) # "bad"
